@@ -37,6 +37,10 @@ def gen_cases(tier, seed):
         # 0.4 symprec (< the 0.5 symprec "must be stored" band) but not to machine precision; symprec itself is varied
         cases.append({"family": fam, "seed": int(rng.integers(10 ** 9)), "dense": bool(i // len(fams) % 2), "_cost": 3 if fam == "zoo" else 1,
                       "near": float([0.0, 0.0, 0.03, 0.2][rng.integers(4)]) if fam.endswith("_ties") else 0.0, "symprec": float([1e-5, 1e-5, 1e-3, 1e-7][rng.integers(4)])})
+    # supercells of more than a thousand atoms (ordinary production sizes; a hand-made work split across threads only shows there), any thread count
+    for i in range(8 if tier == "quick" else 64):
+        cases.append({"family": "large", "seed": int(rng.integers(10 ** 9)), "dense": bool(i % 4 != 3), "_cost": 40, "near": 0.0, "symprec": 1e-5,
+                      "_threads": [2, 3, 5, 7, 16, 1][i % 6]})
     return cases
 
 
@@ -61,8 +65,8 @@ def make_problem(c):
     rng = np.random.default_rng(c["seed"])
     fam = c["family"]
     fr = [0, 0.5, 1 / 3, 2 / 3, 0.25, 0.75]
-    if fam in ("random", "needle", "plate"):
-        if fam == "random":
+    if fam in ("random", "needle", "plate", "large"):
+        if fam in ("random", "large"):
             L = rng.standard_normal((3, 3)) + 2.0 * np.eye(3)
             L *= rng.uniform(2, 6)
         elif fam == "needle":
@@ -74,6 +78,9 @@ def make_problem(c):
         if np.linalg.det(L) < 0:
             L[0] *= -1
         ns, npr = int(rng.integers(4, 12)), int(rng.integers(1, 4))
+        if fam == "large":
+            ns = int([1024, 1025, 1029, 1101, 1536, 2049][int(rng.integers(6))] + rng.integers(0, 3))
+            L = L * 4.0
         xs = rng.uniform(-1, 2, (ns, 3))
         xp = xs[:npr].copy()
     else:
